@@ -1,9 +1,13 @@
 import TaskModel.Gen.NondetSites
+import TaskModel.Gen.Load
 /-!
 Load.Sites — hand-written classification of the sites on the load/compile path whose
 iteration order the language does not fix (`Gen.NondetSites`, regenerated on every run).
 A new map range or topological sort on that path appears in the generated list without
-an entry here and breaks `Props.C09.all_sites_classified`.
+an entry here and breaks `Props.C09.all_sites_classified`.  So does a function on that path that
+starts goroutines with an `errgroup` and uses the group's error — the FIRST error IN TIME — unless
+the group waits for each goroutine before it starts the next (kind `errgroup-sequential`) or, for
+`Reader.include`, the error is replaced by the schedule-free walk `Reader.firstError`.
 -/
 namespace TaskModel.Load
 
@@ -45,8 +49,23 @@ def classification : List SiteEntry := [
   ⟨"taskfile/ast.TaskfileGraph.Merge", "range predecessorMap[hash]", .orderSensitive,
     "parents of one file in map order: decides which of several failing merges is reported (exit code 1 vs 203)"⟩,
   ⟨"taskfile/ast.TaskfileGraph.Merge", "range slices.Sorted(maps.Keys(predecessors))", .orderSensitive,
-    "same site after F14: parents in key order"⟩
+    "same site after F14: parents in key order"⟩,
+  ⟨"taskfile/ast.TaskfileGraph.Merge", "errgroup.Go/Wait", .orderSensitive,
+    "merges of one file into its parents run in goroutines of an errgroup: harmless only because g.Wait() follows every g.Go (one at a time, in the sorted order of the parents)"⟩,
+  ⟨"taskfile.Reader.include", "errgroup.Go/Wait", .orderSensitive,
+    "the includes of a file are read concurrently and g.Wait() yields the first error in time: with two failing includes the exit code changed from run to run (1 / 102 / 107); Reader.Read replaces that error by Reader.firstError, a walk over the recorded results in declaration order"⟩
 ]
+
+/-- `Reader.Read` returns the result of `Reader.firstError` whenever the concurrent read failed
+and the walk finds an error; `Reader.include` records the error of reading a file right after
+`readNode`, every error of resolving an include through `fail` (no error return before the
+recursion bypasses it), and the location included before it recurses (`Gen.Load`, regenerated) -/
+def readErrorIsCanonical : Bool :=
+  TaskModel.Gen.Load.readErrorBranch ==
+      ["if ‹1› := r.firstError(node.Location(), nil, map[string]bool{}); ‹1› != nil", "  return nil, ‹1›", "return nil, ‹0›"]
+    && TaskModel.Gen.Load.includeRecords ==
+      ["file-error-recorded-after:readNode", "location-recorded-before-recursion:Location()", "goroutine:fail-returns=4",
+       "goroutine:unrecorded-error-returns-before-recursion=0", "goroutine:error-returns-from-recursion-on=1"]
 
 def classify (fn expr : String) : Option SiteClass :=
   (classification.find? (fun s => s.fn == fn && s.expr == expr)).map (·.cls)
@@ -58,6 +77,8 @@ def siteOk (s : String × String × String) : Bool :=
   | none => false
   | some .benign => true
   | some .permitted => true
-  | some .orderSensitive => s.2.2 == "sortedkeys" || s.2.2 == "stabletoposort"
+  | some .orderSensitive =>
+    s.2.2 == "sortedkeys" || s.2.2 == "stabletoposort" || s.2.2 == "errgroup-sequential"
+      || (s.2.2 == "errgroup-wait" && s.1 == "taskfile.Reader.include" && readErrorIsCanonical)
 
 end TaskModel.Load
